@@ -102,6 +102,24 @@ DEFAULT_IMPORTS of the selected classes and of the enum model, the selected type
 def possibleImports (key : Nat × Nat) (roles : List (Nat × Cls)) : List (Nat × Nat) :=
   selectedImports roles ++ enumClass.imports ++ typeMapOf key ++ sharedPool
 
+/-- every Import held by a class-level attribute (DEFAULT_IMPORTS and every other Import / tuple of Imports, as the class
+resolves it) of the classes `get_data_model_types` selected for `key`: the fixed places a field or model object of that
+selection can take a version-dependent import from -/
+def classAttrImports (key : Nat × Nat) : List (Nat × Nat) :=
+  ((classImportAttrs.lookup key).getD []).flatMap (fun a => a.2.2.2)
+
+/-- where the tables know an import from, for a run with this selection -/
+inductive Origin where
+  | classAttr | typeMap | pool | enumModel | outside
+  deriving Repr, DecidableEq
+
+def origin (key : Nat × Nat) (i : Nat × Nat) : Origin :=
+  if (classAttrImports key).contains i then .classAttr
+  else if (typeMapOf key).contains i then .typeMap
+  else if enumClass.imports.contains i then .enumModel
+  else if (importConstants.map (fun c => (c.2.2.1, c.2.2.2))).contains i then .pool
+  else .outside
+
 /-- the oldest supported target -/
 def minMinor : Nat := (versions.map (·.2)).foldl min 99
 
